@@ -192,8 +192,9 @@ def bounded(params):
     serial_pools()
     serial = _results(_mk("MATCHED_INSTANCE", False), big_p.copy(), big_r.copy())
     evals += 1
-    if serial.get("tp") != n_inst and len(failures) < 8:
-        failures.append({"input": {"instances": n_inst, "cores": _os.cpu_count()}, "problems": [f"{n_inst} matched instances (every label present in both maps) but tp={serial.get('tp')}, fn={serial.get('fn')}"], "replay_kind": "c15.options"})
+    ser_u = serial.get("ungrouped", {})
+    if ser_u.get("tp") != n_inst and len(failures) < 8:
+        failures.append({"input": {"instances": n_inst, "cores": _os.cpu_count()}, "problems": [f"{n_inst} matched instances (every label present in both maps) but tp={ser_u.get('tp')}, fn={ser_u.get('fn')}"], "replay_kind": "c15.options"})
     if with_pool != serial and len(failures) < 8:
         failures.append({"input": {"instances": n_inst, "cores": _os.cpu_count()}, "problems": [f"{n_inst} matched instances: the worker pool gives a different result than the serial map: " + str({k: (serial.get(k), with_pool.get(k)) for k in serial if serial.get(k) != with_pool.get(k)})[:300]], "replay_kind": "c15.options"})
     kr = keys({})
